@@ -85,16 +85,16 @@ type region struct {
 }
 
 type txOp struct {
-	kind    opKind
-	path    []string
-	key     string
-	val     []byte // nil value = "no value assigned"
-	blk     int
-	blks    []int
-	regs    []region
-	target  uint64
-	cur     []curStep
-	stopAt  int  // ForEach: user function returns an error at this item (-1 = never)
+	kind   opKind
+	path   []string
+	key    string
+	val    []byte // nil value = "no value assigned"
+	blk    int
+	blks   []int
+	regs   []region
+	target uint64
+	cur    []curStep
+	stopAt int // ForEach: user function returns an error at this item (-1 = never)
 }
 
 type txStep struct {
@@ -172,15 +172,15 @@ func makeBlock(c simkit.Chooser, idx int, size int) *btcutil.Block {
 }
 
 type genState struct {
-	c        simkit.Chooser
-	wl       *workload
-	paths    [][]string // bucket paths the generator believes exist ([] = root)
-	nextBlk  int
-	valCtr   int
-	bigVals  bool
-	nilVals  bool
-	overrun  bool
-	blocky   bool
+	c       simkit.Chooser
+	wl      *workload
+	paths   [][]string // bucket paths the generator believes exist ([] = root)
+	nextBlk int
+	valCtr  int
+	bigVals bool
+	nilVals bool
+	overrun bool
+	blocky  bool
 }
 
 func (g *genState) pickPath() []string {
